@@ -331,24 +331,47 @@ theorem leafFormula_eq_tipPaths {t : Table} (hw : WF t) (n : Int) : leafFormula 
   unfold leafFormula centripetal
   exact Nat.mul_comm _ _
 
-/-- Off terminal twigs the code's seeding scheme yields the tip-path count… -/
-theorem fcPre_of_seedIsFork {t : Table} (hw : WF t) {n : Int} (hn : n ∈ ids t) (h : seedIsFork t n = true) :
-    fcPre t true n = tipPaths t n := by
-  unfold seedIsFork at h
+/-! #### `flow_centrality` as written (after the fixes): the tip-path count at every node -/
+
+theorem fcPre_eq_tipPaths {t : Table} (hw : WF t) {n : Int} (hn : n ∈ ids t) : fcPre t true n = tipPaths t n := by
   unfold fcPre
+  split
+  · exact leafFormula_eq_tipPaths hw n
+  · rw [← leafFormula_chainSeed hw _ n hn, leafFormula_eq_tipPaths hw]
+
+/-- **`flow_centrality` as written equals its specification at every node.** -/
+theorem flowCentrality_eq_fcSpec {t : Table} (hw : WF t) {n : Int} (hn : n ∈ ids t) :
+    flowCentrality t true n = fcSpec t n := by
+  unfold flowCentrality fcSpec
+  by_cases hf : isFork t n = true
+  · rw [if_pos hf, if_pos hf]
+    congr 1
+    apply List.map_congr_left
+    intro c hc
+    exact fcPre_eq_tipPaths hw (child_anc hw hn hc).1
+  · rw [if_neg hf, if_neg hf]
+    exact fcPre_eq_tipPaths hw hn
+
+/-! #### historical: the scheme before the fixes (branch points only) -/
+
+/-- Off terminal twigs the code's seeding scheme yields the tip-path count… -/
+theorem fcPreHist_of_seedIsFork {t : Table} (hw : WF t) {n : Int} (hn : n ∈ ids t) (h : seedIsFork t n = true) :
+    fcPreHist t true n = tipPaths t n := by
+  unfold seedIsFork at h
+  unfold fcPreHist
   simp only [h, if_true]
   rw [← leafFormula_chainSeed hw _ n hn, leafFormula_eq_tipPaths hw]
 
 /-- …on them (and at forking roots) it yields 0. -/
-theorem fcPre_of_not_seedIsFork {t : Table} {n : Int} (h : seedIsFork t n = false) : fcPre t true n = 0 := by
+theorem fcPreHist_of_not_seedIsFork {t : Table} {n : Int} (h : seedIsFork t n = false) : fcPreHist t true n = 0 := by
   unfold seedIsFork at h
-  unfold fcPre
+  unfold fcPreHist
   simp [h]
 
-theorem fcPre_le_tipPaths {t : Table} (hw : WF t) {n : Int} (hn : n ∈ ids t) : fcPre t true n ≤ tipPaths t n := by
+theorem fcPreHist_le_tipPaths {t : Table} (hw : WF t) {n : Int} (hn : n ∈ ids t) : fcPreHist t true n ≤ tipPaths t n := by
   cases h : seedIsFork t n with
-  | true => rw [fcPre_of_seedIsFork hw hn h]
-  | false => rw [fcPre_of_not_seedIsFork h]; exact Nat.zero_le _
+  | true => rw [fcPreHist_of_seedIsFork hw hn h]
+  | false => rw [fcPreHist_of_not_seedIsFork h]; exact Nat.zero_le _
 
 theorem foldl_max_mono {α} (f g : α → Nat) (l : List α) (h : ∀ x ∈ l, f x ≤ g x) :
     ∀ a b : Nat, a ≤ b → (l.map f).foldl max a ≤ (l.map g).foldl max b := by
@@ -365,30 +388,30 @@ theorem maxList_map_mono {α} (f g : α → Nat) (l : List α) (h : ∀ x ∈ l,
     maxList (l.map f) ≤ maxList (l.map g) := foldl_max_mono f g l h 0 0 (Nat.le_refl _)
 
 /-- `flow_centrality` as written never exceeds its specification… -/
-theorem flowCentrality_le_fcSpec {t : Table} (hw : WF t) {n : Int} (hn : n ∈ ids t) :
-    flowCentrality t true n ≤ fcSpec t n := by
-  unfold flowCentrality fcSpec
+theorem flowCentralityHist_le_fcSpec {t : Table} (hw : WF t) {n : Int} (hn : n ∈ ids t) :
+    flowCentralityHist t true n ≤ fcSpec t n := by
+  unfold flowCentralityHist fcSpec
   by_cases hf : isFork t n = true
   · rw [if_pos hf, if_pos hf]
-    exact maxList_map_mono _ _ _ (fun c hc => fcPre_le_tipPaths hw (child_anc hw hn hc).1)
-  · rw [if_neg hf, if_neg hf]; exact fcPre_le_tipPaths hw hn
+    exact maxList_map_mono _ _ _ (fun c hc => fcPreHist_le_tipPaths hw (child_anc hw hn hc).1)
+  · rw [if_neg hf, if_neg hf]; exact fcPreHist_le_tipPaths hw hn
 
 /-- …and equals it wherever no terminal twig is involved: at a non-fork whose chain ends in a branch
 point, and at a fork none of whose children lies on a terminal twig. -/
-theorem flowCentrality_eq_fcSpec {t : Table} (hw : WF t) {n : Int} (hn : n ∈ ids t)
+theorem flowCentralityHist_eq_fcSpec {t : Table} (hw : WF t) {n : Int} (hn : n ∈ ids t)
     (h : if isFork t n then ∀ c ∈ children t n, seedIsFork t c = true else seedIsFork t n = true) :
-    flowCentrality t true n = fcSpec t n := by
-  unfold flowCentrality fcSpec
+    flowCentralityHist t true n = fcSpec t n := by
+  unfold flowCentralityHist fcSpec
   by_cases hf : isFork t n = true
   · rw [if_pos hf] at h
     rw [if_pos hf, if_pos hf]
     congr 1
     apply List.map_congr_left
     intro c hc
-    exact fcPre_of_seedIsFork hw (child_anc hw hn hc).1 (h c hc)
+    exact fcPreHist_of_seedIsFork hw (child_anc hw hn hc).1 (h c hc)
   · rw [if_neg hf] at h
     rw [if_neg hf, if_neg hf]
-    exact fcPre_of_seedIsFork hw hn h
+    exact fcPreHist_of_seedIsFork hw hn h
 
 /-- The specification is `synapse_flow_centrality` (centripetal) with one pre- and one postsynapse on
 every leaf: the repaired `flow_centrality` can reuse that code path. -/
